@@ -67,7 +67,8 @@ ASSUMPTIONS = [
 ]
 
 FAULT_CLASSES = ['EA', 'EAB', 'EABC', 'EX', 'EMI', 'KeyError', 'ValueError',
-                 'IndexError', 'EAB~', 'EX~', 'ETY', 'TypeError', 'EFALSY']
+                 'IndexError', 'EAB~', 'EX~', 'ETY', 'TypeError', 'EFALSY',
+                 'NotFound~']
 HANDLER_POOL = ['EA', 'EAB', 'EABC', 'EX', 'EMI', 'KeyError', 'LookupError',
                 'ValueError', 'IndexError', 'Exception', 'TypeError', 'ETY',
                 'NotFound', 'EFALSY']
@@ -162,7 +163,7 @@ class Gen:
             s = self.site('NX')
             self.script[s] = {'rot': [{'exc': c} for c in r.sample(
                 ['EA', 'EAB', 'EABC', 'EX', 'EMI', 'ValueError', 'EAB~', 'EX~',
-                 'ETY', 'TypeError', 'EFALSY'],
+                 'ETY', 'TypeError', 'EFALSY', 'NotFound~', 'KeyError~'],
                 r.choice([1, 2, 3]))]}
             t = {'site': s}
         return {'k': 'raise', 'type': t,
@@ -217,7 +218,7 @@ class Gen:
                 saved_sw = self.swarm
                 self.swarm = [k for k in saved_sw if k != 'sub']
                 node = self.n_try(depth + 1, 1, False)
-                if node['handlers'][-1]['names']:
+                if all(h['names'] for h in node['handlers']):
                     node['handlers'].append({'names': [], 'body': self.body(
                         depth + 2, 2)})
                 self.swarm = saved_sw
@@ -291,7 +292,13 @@ class Gen:
             if r.random() < 0.08:       # a handler with a really empty body
                 hs[-1]['body'] = {'b': self.bid(), 'n': []}
         if r.random() < 0.3:
-            hs.append({'names': [], 'body': self.body(depth + 1, td + 1)})
+            # a bare handler, usually last but anywhere is legal: whatever
+            # comes after it is never reached
+            bare = {'names': [], 'body': self.body(depth + 1, td + 1)}
+            if r.random() < 0.35:
+                hs.insert(r.randrange(len(hs)), bare)
+            else:
+                hs.append(bare)
         return {'k': 'try', 'body': self.body(depth + 1, td + 1, minn=1),
                 'handlers': hs,
                 'else': self.body(depth + 1, td + 1)
